@@ -86,6 +86,8 @@ class Ctx:
         if n == 0:
             return []
         shards = shards or max(1, min(NCPU // 2, (n + 399) // 400))
+        pool = shards
+        shards = max(shards, (n + 7999) // 8000)          # at most 8,000 vectors per TLC run (the JSON of one run stays well below the heap); runs beyond the pool queue up
         chunks = [(k, vectors[k::shards]) for k in range(shards)]
         cfg = "INIT Init\nNEXT Next\nINVARIANT Judge\nCHECK_DEADLOCK FALSE\n" + consts
 
@@ -105,7 +107,7 @@ class Ctx:
             return r, rej
 
         rejected = []
-        with cf.ThreadPoolExecutor(max_workers=shards) as ex:
+        with cf.ThreadPoolExecutor(max_workers=pool) as ex:
             for r, rej in ex.map(one, chunks):
                 self.traces_validated += r.distinct - len(rej)
                 self.checker_cmds.append(r.cmd)
